@@ -110,7 +110,7 @@ pub fn run(ctx: &mut Ctx) {
     let mut pairs = crate::fam_gen::pairs();
     #[cfg(feature = "extra_zoo")]
     pairs.extend(crate::fam_gen_extra::pairs());
-    let nvals = ctx.t(6, 40);
+    let nvals = if cfg!(miri) { 1 } else { ctx.t(6, 40) };
     let child = crate::isolate::child_item();
     for (pi, p) in pairs.iter().enumerate() {
         match child {
